@@ -128,6 +128,7 @@ func C09(tier string) int {
 		pmu.Lock()
 		defer pmu.Unlock()
 		res.Case("history|" + sc.Name)
+		heldPayloads(res, "C09", out.App, sc.Name)
 		for _, v := range out.Req.Violations {
 			base := fmt.Sprintf("%s|site=%s|holder=%s", v.Kind, NormSite(v.Site), NormSite(v.Holder))
 			res.Violate(mk.key(base, nil)+"|in-a-history", fmt.Sprintf("%s in history %s", v.String(), sc.Name), M{"check": "C09", "scenario": sc.Name, "part": "pair-history", "violation": v.String()})
